@@ -31,10 +31,10 @@ ASSUMPTIONS = [
     "continuous programs: equality of laws is observed through mixed moments of the source variables up to total degree 3 only",
     "abstracted conditions (_prob symbols) are outside the oracle: those stages are counted inconclusive",
 ]
-TIMEOUT = {"quick": 25, "thorough": 120}
-DEADLINE = {"quick": 70, "thorough": 1500}
+TIMEOUT = {"quick": 18, "thorough": 120}
+DEADLINE = {"quick": 80, "thorough": 1500}
 MIN_DECIDING = {"quick": 40, "thorough": 300}
-NCASES = {"quick": 200, "thorough": 4000}
+NCASES = {"quick": 170, "thorough": 4000}
 CONFIGS = [{}, {"cond2arithm": True}, {"transform_categoricals": True}, {"cond2arithm": True, "transform_categoricals": True}]
 
 
